@@ -801,3 +801,23 @@ func Running() int {
 	}
 	return s.running
 }
+
+// Stuck is called by a shim when the running thread cannot make progress for a
+// reason the scheduler could not foresee (a real lock leaked by an earlier
+// phase). The execution ends as a deadlock; the calling goroutine never returns.
+//
+//go:norace
+func Stuck(msg string) {
+	s := cur.Load()
+	if s == nil {
+		panic(msg)
+	}
+	if s.aborted {
+		runtime.Goexit()
+	}
+	self := s.running
+	s.res.Outcome = ODeadlock
+	s.res.Detail = fmt.Sprintf("deadlock: T%d: %s", self, msg)
+	handoff(s.done)
+	s.waitGrant(self)
+}
